@@ -48,7 +48,7 @@ static std::vector<CheckSpec> &specs() {
 	add("C15", "exploration", {{"ha", "C15", 12000, 800000}});
 	add("C07", "exploration", {{"world", "C07", 12000, 600000}});
 	add("C08", "exploration", {{"world", "C08", 10000, 500000}});
-	add("C04", "exploration", {{"world", "C04", 8000, 400000}});
+	add("C04", "exploration", {{"trust", "C04", 6000, 300000}});
 	add("C11", "exploration", {{"history", "C11", 6000, 300000}});
 	add("C16", "exploration", {{"history", "C16", 6000, 300000}});
 	add("C19", "fault_enumeration", {{"alloc", "C19", 0, 0}}, 100, 2400);
